@@ -365,9 +365,24 @@ impl Ctx {
             })
             .collect();
         let mut n = 0;
-        for (r, (src, _)) in results.into_iter().zip(reps.iter()) {
+        for (r, (src, o)) in results.into_iter().zip(reps.iter()) {
             n += 1;
             if let Some(diff) = r? {
+                // is the hook unfaithful, or does the interpreter carry state from one
+                // script to the next?  A fresh worker that runs only this script answers.
+                let fresh = self.pool.run(&[Req { mode: Mode::Run, label: "case.sd", src }])?;
+                let c = subject::run_cli_simple(&self.bin, src.as_bytes())?;
+                if compare_batch_cli(&fresh[0], &c).is_none() {
+                    let case = Case::new(src.clone(), 9999, "conformance representative".to_string());
+                    self.report(
+                        &case,
+                        None,
+                        o,
+                        "state-carried-between-scripts",
+                        format!("evaluated after other scripts in one process the interpreter answers {:?} {:?} {:?}; evaluated alone (fresh process, and the plain CLI) it answers {:?} {:?} {:?}: hidden process-global state changes what a program does ({})", o.class, o.out_str(), o.msg, fresh[0].class, fresh[0].out_str(), fresh[0].msg, diff),
+                    );
+                    continue;
+                }
                 return Err(MachineryError(format!(
                     "conformance pass: batch and CLI disagree on {:?}: {}",
                     src, diff
